@@ -5,6 +5,7 @@ import OpdaProofs.DkwEps
 import OpdaProofs.RectProb
 import OpdaProofs.RectVolume
 import OpdaProofs.RectBand
+import OpdaProofs.RectPIT
 /-!
 # C01 — CDF confidence bands attain their nominal simultaneous coverage  (partial)
 
@@ -18,13 +19,18 @@ What is proved:
   the product measure of `n` independent uniforms on `[0,1]`, of `{αᵢ ≤ U₍ᵢ₎ ≤ βᵢ ∀ i}` for all rational level lists
   in `[0,1]` (`rect_coverage_is_sum_over_assignments`: finite combinatorics; `rect_coverage_is_volume`,
   `rect_coverage_is_volume_order_statistics`: measure theory), and hence the probability that the band with these
-  level tables contains the uniform distribution function everywhere (`band_coverage_is_rect_coverage`).
+  level tables contains the uniform distribution function everywhere (`band_coverage_is_rect_coverage`);
+* **the probability integral transform and the end-to-end statement for EVERY continuous distribution**: for a
+  probability measure `ν` on `ℝ` whose distribution function `F t = ν (-∞, t]` is continuous (equivalently: `ν` has no
+  atoms, `continuous_cdf_iff_no_atoms`), `F(Y)` is uniform on `[0,1]` (`pit_map`, `pit_sublevel`), `(F(Y₁), …, F(Yₙ))`
+  for independent draws is `n` independent uniforms (`pit_product`), and the probability under `ν^{⊗n}` that the band
+  with the given level tables contains `F` at every `t` is `coverage α β` — the same number for every such `ν`
+  (`band_coverage_any_continuous_F`).
 What is evaluated on every run: `coverage` in exact ℚ on the level tables read off the code's output (dkw `≥ c`,
 ks `= c ± 1e-12`, ld inside the stated Beta interval).  Steck's determinant (`OpdaModel/Steck.lean`, identity cited,
 not proved) is no longer in the trusted base: it is evaluated alongside and must give the same rational.
-Still cited / not formalised: the probability integral transform (for a continuous `F` other than the uniform one,
-`F(Yⱼ)` are independent uniforms), DKW–Massart, the Kolmogorov–Smirnov law inside scipy, the Beta law of the simulated
-critical value's coverage.
+Still cited / not formalised: DKW–Massart, the Kolmogorov–Smirnov law inside scipy, the Beta law of the simulated
+critical value's coverage.  (The probability integral transform is no longer cited: it is `pit_map` / `pit_product`.)
 -/
 namespace Opda.Props.C01
 open Opda.Band
@@ -155,8 +161,7 @@ level tables `L`, `U : ℕ → ℝ` satisfy `L 0 ≤ 0`, `1 ≤ U n`, and have t
 distribution function `unifCdf t = max 0 (min t 1)` at **every** `t` — `L_{k(t)} ≤ unifCdf t ≤ U_{k(t)}`, `k(t)` the
 number of sample points `≤ t` (`IsCount` on the sorted sample `sortedSeq u`, exactly the left-hand side of
 `band_contains_iff_box`) — equals `coverage α β`, the rational number the driver op `band.rect` returns.
-(For a general continuous `F` the left-hand side of `band_contains_iff_box` reduces to the same box for
-`F(Y₍ᵢ₎)`; that `F(Yⱼ)` are again independent uniforms — the probability integral transform — is not formalised.) -/
+(For a general continuous `F` see `band_coverage_any_continuous_F` below.) -/
 theorem band_coverage_is_rect_coverage (alpha beta : List ℚ) (hlen : beta.length = alpha.length)
     (hα : ∀ x ∈ alpha, 0 ≤ x ∧ x ≤ 1) (hβ : ∀ x ∈ beta, 0 ≤ x ∧ x ≤ 1)
     (L U : ℕ → ℝ) (hL0 : L 0 ≤ 0) (hUn : 1 ≤ U alpha.length)
@@ -192,6 +197,76 @@ example : ∃ (alpha beta : List ℚ) (L U : ℕ → ℝ), beta.length = alpha.l
     rcases this with rfl | rfl <;> simp
 
 end rect
+
+/-! ### the probability integral transform; coverage for every continuous distribution -/
+section pit
+open Opda.RectProb Opda.RectProbP MeasureTheory
+
+/-- `cdfOf ν` is the distribution function `t ↦ ν (-∞, t]` (as a real number) -/
+theorem cdfOf_spec (ν : Measure ℝ) (t : ℝ) : cdfOf ν t = (ν (Set.Iic t)).toReal := rfl
+
+/-- it is Mathlib's `ProbabilityTheory.cdf` -/
+theorem cdfOf_eq_mathlib_cdf (ν : Measure ℝ) [IsProbabilityMeasure ν] : cdfOf ν = ⇑(ProbabilityTheory.cdf ν) :=
+  Opda.RectProbP.cdfOf_eq_cdf ν
+
+/-- **probability integral transform**: if the distribution function `F = cdfOf ν` of a probability measure `ν` on `ℝ`
+is continuous, the law of `F(Y)` for `Y ∼ ν` (the push-forward `ν.map F`) is the uniform law on `[0,1]`. -/
+theorem pit_map (ν : Measure ℝ) [IsProbabilityMeasure ν] (hF : Continuous (cdfOf ν)) :
+    ν.map (cdfOf ν) = (volume : Measure ℝ).restrict (Set.Icc 0 1) := Opda.RectProbP.pit_map hF
+
+/-- pointwise form: `P[F(Y) ≤ t] = t` for every `t ∈ [0,1]` -/
+theorem pit_sublevel (ν : Measure ℝ) [IsProbabilityMeasure ν] (hF : Continuous (cdfOf ν)) (t : ℝ)
+    (ht0 : 0 ≤ t) (ht1 : t ≤ 1) : ν {y | cdfOf ν y ≤ t} = ENNReal.ofReal t :=
+  Opda.RectProbP.measure_sublevel_Icc hF ht0 ht1
+
+/-- **product form**: for `n` independent draws `Y₁, …, Yₙ` from `ν` (the product measure `Measure.pi fun _ => ν`) the
+vector `(F(Y₁), …, F(Yₙ))` has the law of `n` independent uniforms on `[0,1]`. -/
+theorem pit_product (ν : Measure ℝ) [IsProbabilityMeasure ν] (hF : Continuous (cdfOf ν)) (n : ℕ) :
+    (Measure.pi fun _ : Fin n => ν).map (fun y i => cdfOf ν (y i))
+      = Measure.pi fun _ : Fin n => (volume : Measure ℝ).restrict (Set.Icc 0 1) := Opda.RectProbP.pit_pi hF n
+
+/-- the hypothesis "continuous distribution function" is exactly "no atoms" (`ν {x} = 0` for every `x`) -/
+theorem continuous_cdf_iff_no_atoms (ν : Measure ℝ) [IsProbabilityMeasure ν] :
+    Continuous (cdfOf ν) ↔ ∀ x, ν {x} = 0 :=
+  ⟨fun h => (Opda.RectProbP.nullSingleton_of_cdfOf_continuous ν h).measure_singleton,
+   fun h => @Opda.RectProbP.cdfOf_continuous_of_nullSingleton ν _ ⟨h⟩⟩
+
+/-- a non-decreasing map commutes with taking order statistics: `(F ∘ y)₍ᵢ₎ = F(y₍ᵢ₎)` -/
+theorem orderStat_comp_monotone {n : ℕ} (F : ℝ → ℝ) (hF : Monotone F) (y : Fin n → ℝ) (i : Fin n) :
+    orderStat (F ∘ y) i = F (orderStat y i) := Opda.RectProbP.orderStat_comp_mono hF y i
+
+/-- **C01, end to end, for every continuous distribution**: let `ν` be a probability measure on `ℝ` with continuous
+distribution function `F = cdfOf ν`, and let the level tables `L`, `U : ℕ → ℝ` satisfy `L 0 ≤ 0`, `1 ≤ U n` and have the
+rational entries `L (i+1) = αᵢ`, `U i = βᵢ` (`i < n`) in `[0,1]`.  For `n` independent draws `y` from `ν`, the probability
+that the band contains the TRUE distribution function at **every** `t` — `L_{k(t)} ≤ F t ≤ U_{k(t)}`, `k(t)` the number of
+sample points `≤ t` (`IsCount` on the sorted sample `sortedSeq y`, exactly the left-hand side of `band_contains_iff_box`)
+— equals `coverage α β`, the rational number the driver op `band.rect` returns; in particular it does not depend on `ν`.
+Proof: almost surely `F(Yⱼ)` have no ties (they are independent uniforms, `pit_product`), so `band_contains_iff_box`
+applies and, `F` being non-decreasing, `F(Y₍ᵢ₎) = (F∘Y)₍ᵢ₎`; the event is the preimage under `y ↦ F ∘ y` of the rectangle
+`{αᵢ ≤ u₍ᵢ₎ ≤ βᵢ ∀ i}` whose uniform probability is `rect_coverage_is_volume_order_statistics`. -/
+theorem band_coverage_any_continuous_F (ν : Measure ℝ) [IsProbabilityMeasure ν] (hF : Continuous (cdfOf ν))
+    (alpha beta : List ℚ) (hlen : beta.length = alpha.length)
+    (hα : ∀ x ∈ alpha, 0 ≤ x ∧ x ≤ 1) (hβ : ∀ x ∈ beta, 0 ≤ x ∧ x ≤ 1)
+    (L U : ℕ → ℝ) (hL0 : L 0 ≤ 0) (hUn : 1 ≤ U alpha.length)
+    (hL : ∀ i (h : i < alpha.length), L (i + 1) = ((alpha[i] : ℚ) : ℝ))
+    (hU : ∀ i (h : i < beta.length), U i = ((beta[i] : ℚ) : ℝ)) :
+    (Measure.pi fun _ : Fin alpha.length => ν)
+      {y | ∀ t k, IsCount alpha.length (sortedSeq y) t k → L k ≤ cdfOf ν t ∧ cdfOf ν t ≤ U k}
+      = ENNReal.ofReal ((coverage alpha beta : ℚ) : ℝ) :=
+  Opda.RectProbP.cdfPi_band hF alpha beta hlen hα hβ L U hL0 hUn hL hU
+
+/-- non-vacuity: the standard normal law is a probability measure with a continuous distribution function (so are all
+atomless laws, `continuous_cdf_iff_no_atoms`); the table hypotheses are those of `band_coverage_is_rect_coverage`,
+shown satisfiable above. -/
+example : ∃ (ν : Measure ℝ) (_ : IsProbabilityMeasure ν), Continuous (cdfOf ν) :=
+  ⟨ProbabilityTheory.gaussianReal 0 1, inferInstance, Opda.RectProbP.gaussian_cdfOf_continuous⟩
+
+/-- non-vacuity with the uniform law itself -/
+example : ∃ (ν : Measure ℝ) (_ : IsProbabilityMeasure ν), Continuous (cdfOf ν) :=
+  ⟨(volume : Measure ℝ).restrict (Set.Icc 0 1), ⟨by simp⟩,
+    @Opda.RectProbP.cdfOf_continuous_of_nullSingleton _ ⟨by simp⟩ inferInstance⟩
+
+end pit
 
 end Opda.Props.C01
 
